@@ -27,6 +27,7 @@ var transitionFunc = [...]func(context, []byte) (context, int){
 
 var commentStart = []byte("<!--")
 var commentEnd = []byte("-->")
+var commentEndBang = []byte("--!>")
 
 // tText is the context transition function for the text state.
 func tText(c context, s []byte) (context, int) {
@@ -204,7 +205,12 @@ func tBeforeValue(c context, s []byte) (context, int) {
 
 // tHTMLCmt is the context transition function for stateHTMLCmt.
 func tHTMLCmt(c context, s []byte) (context, int) {
-	if i := bytes.Index(s, commentEnd); i != -1 {
+	// A comment ends with "-->" or with "--!>".
+	i := bytes.Index(s, commentEnd)
+	if j := bytes.Index(s, commentEndBang); j != -1 && (i == -1 || j < i) {
+		return context{}, j + 4
+	}
+	if i != -1 {
 		return context{}, i + 3
 	}
 	return c, len(s)
